@@ -134,28 +134,33 @@ def gen_cases(tier, seed):
     shapes = A.SHAPES_LE3 if thorough else QUICK_SHAPES
     for (m, n) in shapes:
         reps = orbit_reps(m, n)
-        canon = set(orbit_reps(m, n, rows=True))
-        per = max(1, (64 if not thorough else 48) // (math.factorial(n) * 2**n))
+        canon = sorted(set(orbit_reps(m, n, rows=True)))
+        gsize = math.factorial(n) * 2**n
+        N = A.ternary_count(m, n)
         if thorough:
-            for blk in _blocks(reps, per):
+            for blk in _blocks(reps, max(1, 48 // gsize)):
                 cases.append(dict(kind="orbit", m=m, n=n, reps=blk, aggs="all", seed=seed))
-            N = A.ternary_count(m, n)
-            size = 6 if n == 3 else 12
-            for lo in range(0, N, size):
-                cases.append(dict(kind="direct", m=m, n=n, idx=list(range(lo, min(N, lo + size))), aggs="all", seed=seed))
+            if (m, n) == (3, 3):
+                # two-column insertions of the two slow aggregators: on the B_3-orbit representatives (stated bound)
+                for lo in range(0, N, 6):
+                    cases.append(dict(kind="direct", m=m, n=n, idx=list(range(lo, min(N, lo + 6))), aggs="all", seed=seed, thin="slow-2col"))
+                for blk in _blocks(reps, 8):
+                    cases.append(dict(kind="direct", m=m, n=n, idx=blk, aggs="slow", seed=seed, only="2col"))
+            else:
+                for lo in range(0, N, 12):
+                    cases.append(dict(kind="direct", m=m, n=n, idx=list(range(lo, min(N, lo + 12))), aggs="all", seed=seed))
         else:
-            for blk in _blocks(reps, per):
+            for blk in _blocks(reps, max(1, 64 // gsize)):
                 cases.append(dict(kind="orbit", m=m, n=n, reps=blk, aggs="fast", seed=seed))
-            for blk in _blocks([r for r in reps if r in canon], max(1, per // 2)):
+            for blk in _blocks(canon, max(1, 32 // gsize)):
                 cases.append(dict(kind="orbit", m=m, n=n, reps=blk, aggs="slow", seed=seed))
-            N = A.ternary_count(m, n)
-            for lo in range(0, N, 12):
-                cases.append(dict(kind="direct", m=m, n=n, idx=list(range(lo, min(N, lo + 12))), aggs="fast", seed=seed))
-            for blk in _blocks(sorted(canon), 3):
+            for blk in _blocks(reps, 6):
+                cases.append(dict(kind="direct", m=m, n=n, idx=blk, aggs="fast", seed=seed))
+            for blk in _blocks(canon, 3):
                 cases.append(dict(kind="direct", m=m, n=n, idx=blk, aggs="slow", seed=seed))
     if not thorough:
         canon33 = orbit_reps(3, 3, rows=True)
-        for blk in _blocks(canon33, 1):
+        for blk in _blocks(canon33, 2):
             cases.append(dict(kind="orbit", m=3, n=3, reps=blk, aggs="fast", seed=seed))
         for blk in _blocks(canon33, 6):
             cases.append(dict(kind="direct", m=3, n=3, idx=blk, aggs="fast", seed=seed))
@@ -168,9 +173,14 @@ def gen_cases(tier, seed):
         [(m, n) for m in (2, 3, 4, 5) for n in (2, 3, 4)] if thorough else [(3, 3), (4, 3), (5, 3), (2, 4), (3, 4), (4, 4)]
     )
     for (m, n) in dshapes:
-        for k in range(8):
+        for k in (range(16) if thorough else (0, 1, 8, 9)):
             cases.append(dict(kind="dense", m=m, n=n, k=k, aggs="all", seed=seed))
     return cases
+
+
+def dense_matrix(seed, m, n, k):
+    """k < 8: alphabets.dense (numerically rank 2 + 1e-3 noise); k >= 8: aggkit.dense2 (generic full rank)."""
+    return A.dense(seed, m, n, 8)[k] if k < 8 else K.dense2(seed, m, n, 8)[k - 8]
 
 
 # ----------------------------------------------------------------------------- configurations
@@ -247,6 +257,15 @@ class Ctx:
             return False
         return True
 
+    def zero_direction(self, clause, err, tol, msg):
+        """ConFIG at a point where pinv(unit rows) @ pref vanishes in exact arithmetic (0/0 direction): kept apart
+        from the normal oracles; a mismatch is the known-finding candidate 'zero-direction:ConFIG:<clause>'."""
+        self.count("zero-direction:ConFIG evaluated")
+        if not (err <= tol):
+            self.count("zero-direction:ConFIG mismatches")
+            sig = f"zero-direction:ConFIG:{clause}"
+            self.viol.append(dict(sig=sig, msg=(msg() if callable(msg) else msg)[:700], cls=sig))
+
     def result(self):
         return dict(viol=self.viol, execs=self.execs, outcomes=sorted(self.outcomes), nontrivial=self.nontrivial,
                     dropped=self.dropped, margin=self.margin, maxima=self.maxima, counters=self.counters)
@@ -266,6 +285,10 @@ class Pred:
             self._c[k] = fn()
         return self._c[k]
 
+    def zero_direction(self, cfg):
+        p = cfg.get("p")
+        return self._get(("cfgdir", None if p is None else tuple(p)), lambda: K.config_direction_ratio(self.J, p)) < 1e-6
+
     def admissible(self, cfg, exact):
         """None if the comparison may be asserted with the tight tolerance, 'mgda-tie' for the loose MGDA bound,
         otherwise the name of the predicate that drops it."""
@@ -277,6 +300,8 @@ class Pred:
                 return "drop:rank"
         if name == "IMTLG" and not self._get("imtlg", lambda: K.imtlg_wellposed(J)):
             return "drop:imtlg-guard"
+        if name == "ConFIG" and self.zero_direction(cfg):
+            return "zero-direction"
         if exact and self.integer:
             return None
         if name == "Krum" and self._get(("krum", cfg["f"], cfg["k"]), lambda: K.krum_margin(J, cfg["f"], cfg["k"])) < 1e-6:
@@ -313,8 +338,11 @@ def base_checks(ctx, cfg, J, pred, out):
         ctx.compare(f"combine:{lab}", err, 1e-12 * max(s, 1e-300) * wsc * max(m, 1), f"not-weights@J:{name}", desc)
     if w is not None or name == "ConFIG":
         res = R.lstsq_residual(J, x)
-        tol = TOL_BY_AGG.get(name, TOL) * max(s, 1e-300) * wsc if name == "ConFIG" else TOL * max(s, 1e-300) * wsc
-        ctx.compare(f"span:{lab}", res, tol, f"outside-row-span:{name}", desc)
+        tol = TOL * max(s, 1e-300) * wsc
+        if name == "ConFIG" and pred.zero_direction(cfg):
+            ctx.zero_direction("span", res, tol, desc)
+        else:
+            ctx.compare(f"span:{lab}", res, tol, f"outside-row-span:{name}", desc)
     return True
 
 
@@ -333,6 +361,11 @@ def compare_transformed(ctx, cfg, pred, J, base, got, expect, tname, exact, move
     if not np.all(np.isfinite(got)):
         err = math.inf
     kind = tname.split(":")[0]
+    if adm == "zero-direction":
+        clause = {"perm": "permutation", "zero-column": "zero-column"}.get(kind, "orthogonal")
+        ctx.zero_direction(clause, err, TOL * s * wsc,
+                           lambda: f"{K.cfg_key(cfg)} J={J.tolist()} T={tname}: A(TJ)={got.tolist()} T(A(J))={expect.tolist()}")
+        return
     if adm == "mgda-tie":
         ctx.count("mgda-tie-comparisons")
         tol, oracle, sig = MGDA_LOOSE * s, f"{kind}:MGDA(argmin tie, loose bound)", f"{kind}:MGDA-tie"
@@ -406,7 +439,7 @@ def _direct_transforms(n, with_group):
     return out
 
 
-def run_direct(J, cfgs, ctx, with_group):
+def run_direct(J, cfgs, ctx, with_group, thin=None, only=None):
     m, n = J.shape
     pred = Pred(J)
     bases = {}
@@ -419,12 +452,15 @@ def run_direct(J, cfgs, ctx, with_group):
             J2 = J @ payload
         else:
             J2 = K.apply_cols(J, payload[0], payload[1])
+        two_col = kind == "cols" and len(payload[0]) == n + 2
+        if only == "2col" and not two_col:
+            continue
         moved = J2.shape != J.shape or bool(np.any(J2 != J))
         # a zero-column insertion "moves" the matrix by definition; what matters is that the old coordinates keep their value
         for cfg in cfgs:
             name = cfg["name"]
             base = bases.get(K.cfg_key(cfg))
-            if base is None:
+            if base is None or (thin == "slow-2col" and two_col and name in SLOW):
                 continue
             if kind == "Q":
                 if name not in K.GRAMIAN_BASED:
@@ -466,15 +502,15 @@ def run_case(case):
         canon = None
         for idx in case["idx"]:
             J = A.ternary_index(m, n, idx)
-            run_direct(J, cfgs, ctx, with_group=False)
-            if case["aggs"] in ("slow", "all") and (m, n) in ((2, 2), (2, 3)):
+            run_direct(J, cfgs, ctx, with_group=False, thin=case.get("thin"), only=case.get("only"))
+            if case["aggs"] in ("slow", "all") and (m, n) in ((2, 2), (2, 3)) and not case.get("only"):
                 if canon is None:
                     canon = set(orbit_reps(m, n, rows=True))
                 if idx in canon:
                     run_nash_span(J, ctx)
     elif kind == "dense":
         m, n = case["m"], case["n"]
-        J = A.dense(case["seed"], m, n, 8)[case["k"]]
+        J = dense_matrix(case["seed"], m, n, case["k"])
         run_direct(J, configs(m, n, case["aggs"], dense=True), ctx, with_group=True)
         run_nash_span(J, ctx)
     else:
